@@ -7,6 +7,7 @@ import OpwVerif.Yaml
 namespace Opw.YamlL
 open Opw
 variable {R : Type} [OpwNum R]
+set_option linter.unusedSectionVars false
 
 /-! ### `toI8` -/
 
@@ -27,11 +28,11 @@ theorem toI8_idem (i : Int) : toI8 (toI8 i) = toI8 i :=
 
 theorem get_hash_cons_hit {key v : Yaml R} {l : List (Yaml R × Yaml R)} {k : String}
     (h : key.isStr k = true) : (Yaml.hash ((key, v) :: l)).get k = v := by
-  simp [Yaml.get, List.find?_cons, h]
+  simp [Yaml.get, h]
 
 theorem get_hash_cons_miss {key v : Yaml R} {l : List (Yaml R × Yaml R)} {k : String}
     (h : key.isStr k = false) : (Yaml.hash ((key, v) :: l)).get k = (Yaml.hash l).get k := by
-  simp [Yaml.get, List.find?_cons, h]
+  simp [Yaml.get, h]
 
 /-- `v` sits under the FIRST entry of the hash `y` whose key is the string `k` -/
 def HasKey (y : Yaml R) (k : String) (v : Yaml R) : Prop :=
@@ -140,7 +141,7 @@ theorem readSigns_arr (l : List (Yaml R)) :
   by_cases h5 : l.length = 5
   · simp [signVals, h5]
   · by_cases h6 : l.length = 6
-    · simp [signVals, h5, h6]
+    · simp [signVals, h6]
     · simp [h5, h6]
 
 theorem readSigns_arr_five {l : List (Yaml R)} (h : l.length = 5) :
@@ -183,6 +184,23 @@ theorem readSigns_total (y : Yaml R) :
 
 /-! ### `readOffsets` -/
 
+/-- pointwise relation between two lists (core has no `List.Forall₂`) -/
+inductive All2 {α β : Type} (r : α → β → Prop) : List α → List β → Prop
+  | nil : All2 r [] []
+  | cons {a b l₁ l₂} : r a b → All2 r l₁ l₂ → All2 r (a :: l₁) (b :: l₂)
+
+theorem All2.length_eq {α β : Type} {r : α → β → Prop} {l₁ : List α} {l₂ : List β}
+    (h : All2 r l₁ l₂) : l₁.length = l₂.length := by
+  induction h with
+  | nil => rfl
+  | cons _ _ ih => simp [ih]
+
+theorem All2.imp {α β : Type} {r s : α → β → Prop} (hrs : ∀ a b, r a b → s a b)
+    {l₁ : List α} {l₂ : List β} (h : All2 r l₁ l₂) : All2 s l₁ l₂ := by
+  induction h with
+  | nil => exact .nil
+  | cons h _ ih => exact .cons (hrs _ _ h) ih
+
 /-- value `read_offsets` assigns to one array item -/
 def offEntry (ofInt : Int → R) (it : Yaml R) : Except YamlErr R :=
   match it with
@@ -201,7 +219,7 @@ theorem go_cons (ofInt : Int → R) (it : Yaml R) (rest : List (Yaml R)) :
       | .ok x => match readOffsets.go ofInt rest with
         | .error e => .error e
         | .ok xs => .ok (x :: xs) := by
-  cases it <;> simp [readOffsets.go, offEntry]
+  cases it <;> simp [readOffsets.go, offEntry] <;> rfl
 
 theorem offEntry_error (ofInt : Int → R) (it : Yaml R) {e : YamlErr}
     (h : offEntry ofInt it = .error e) : e = .parse := by
@@ -216,7 +234,7 @@ theorem offEntry_error (ofInt : Int → R) (it : Yaml R) {e : YamlErr}
   | other => simp [offEntry] at h
 
 theorem go_ok {ofInt : Int → R} {items : List (Yaml R)} {vals : List R}
-    (h : List.Forall₂ (fun it x => offEntry ofInt it = .ok x) items vals) :
+    (h : All2 (fun it x => offEntry ofInt it = .ok x) items vals) :
     readOffsets.go ofInt items = .ok vals := by
   induction h with
   | nil => exact go_nil ofInt
@@ -269,7 +287,7 @@ theorem readOffsets_arr_of_go {ofInt : Int → R} {items : List (Yaml R)} {vals 
   by_cases h5 : vals.length = 5
   · simp [h5]
   · by_cases h6 : vals.length = 6
-    · simp [h5, h6]
+    · simp [h6]
     · simp [h5, h6]
 
 theorem readOffsets_arr_err {ofInt : Int → R} {items : List (Yaml R)} {e : YamlErr}
@@ -303,10 +321,10 @@ theorem readOffsets_total (ofInt : Int → R) (y : Yaml R) :
     · exact .inr (.inl (readOffsets_arr_err h))
     · rw [readOffsets_arr_of_go h]
       by_cases h5 : vals.length = 5
-      · left; exact ⟨_, by simp [h5], by simp [h5]⟩
+      · left; exact ⟨vals ++ [0], by simp [h5], by simp [h5]⟩
       · by_cases h6 : vals.length = 6
-        · left; exact ⟨_, by simp [h6], h6⟩
-        · right; right; exact ⟨_, by simp [h5, h6], h5, h6⟩
+        · left; exact ⟨vals, by simp [h6], h6⟩
+        · right; right; exact ⟨vals.length, by simp [h5, h6], h5, h6⟩
 
 /-! ### `fromYamlDocs`, clause by clause -/
 
@@ -366,6 +384,7 @@ theorem fromYamlDocs_signs_ok {ofInt : Int → R} {doc : Yaml R} (rest : List (Y
   unfold signsOf at hs
   simp only [fromYamlDocs, hs, geoNum, geoOf, offsOf, dofOf]
   simp
+  rfl
 
 theorem fromYamlDocs_ok {ofInt : Int → R} {doc : Yaml R} (rest : List (Yaml R)) {s0 : List Int}
     {a1 a2 b c1 c2 c3 c4 : R} {offs : List R}
@@ -392,47 +411,116 @@ theorem fromYamlDocs_missing {ofInt : Int → R} {doc : Yaml R} (rest : List (Ya
   rw [fromYamlDocs_signs_ok rest hs]
   unfold firstMissing fieldNames at hk
   cases h1 : geoNum ofInt doc "a1" with
-  | none => simp [List.find?_cons, h1] at hk; simp [hk]
+  | none => simp [h1] at hk; simp [hk]
   | some a1 =>
   cases h2 : geoNum ofInt doc "a2" with
-  | none => simp [List.find?_cons, h1, h2] at hk; simp [hk]
+  | none => simp [h1, h2] at hk; simp [hk]
   | some a2 =>
   cases h3 : geoNum ofInt doc "b" with
-  | none => simp [List.find?_cons, h1, h2, h3] at hk; simp [hk]
+  | none => simp [h1, h2, h3] at hk; simp [hk]
   | some b =>
   cases h4 : geoNum ofInt doc "c1" with
-  | none => simp [List.find?_cons, h1, h2, h3, h4] at hk; simp [hk]
+  | none => simp [h1, h2, h3, h4] at hk; simp [hk]
   | some c1 =>
   cases h5 : geoNum ofInt doc "c2" with
-  | none => simp [List.find?_cons, h1, h2, h3, h4, h5] at hk; simp [hk]
+  | none => simp [h1, h2, h3, h4, h5] at hk; simp [hk]
   | some c2 =>
   cases h6 : geoNum ofInt doc "c3" with
-  | none => simp [List.find?_cons, h1, h2, h3, h4, h5, h6] at hk; simp [hk]
+  | none => simp [h1, h2, h3, h4, h5, h6] at hk; simp [hk]
   | some c3 =>
   cases h7 : geoNum ofInt doc "c4" with
-  | none => simp [List.find?_cons, h1, h2, h3, h4, h5, h6, h7] at hk; simp [hk]
-  | some c4 => simp [List.find?_cons, h1, h2, h3, h4, h5, h6, h7] at hk
+  | none => simp [h1, h2, h3, h4, h5, h6, h7] at hk; simp [hk]
+  | some c4 => simp [h1, h2, h3, h4, h5, h6, h7] at hk
+
+/-- no field is missing: all seven numbers exist -/
+theorem fields_of_firstMissing_none {num : String → Option R} (hk : firstMissing num = none) :
+    ∃ a1 a2 b c1 c2 c3 c4, num "a1" = some a1 ∧ num "a2" = some a2 ∧ num "b" = some b ∧
+      num "c1" = some c1 ∧ num "c2" = some c2 ∧ num "c3" = some c3 ∧ num "c4" = some c4 := by
+  unfold firstMissing fieldNames at hk
+  simp only [List.find?_eq_none, List.mem_cons, List.not_mem_nil, or_false] at hk
+  have g : ∀ k, k ∈ fieldNames → ∃ x, num k = some x := by
+    intro k hkm
+    have := hk k (by simpa [fieldNames] using hkm)
+    cases hx : num k with
+    | none => simp [hx] at this
+    | some x => exact ⟨x, rfl⟩
+  obtain ⟨a1, h1⟩ := g "a1" (by simp [fieldNames])
+  obtain ⟨a2, h2⟩ := g "a2" (by simp [fieldNames])
+  obtain ⟨b, h3⟩ := g "b" (by simp [fieldNames])
+  obtain ⟨c1, h4⟩ := g "c1" (by simp [fieldNames])
+  obtain ⟨c2, h5⟩ := g "c2" (by simp [fieldNames])
+  obtain ⟨c3, h6⟩ := g "c3" (by simp [fieldNames])
+  obtain ⟨c4, h7⟩ := g "c4" (by simp [fieldNames])
+  exact ⟨a1, a2, b, c1, c2, c3, c4, h1, h2, h3, h4, h5, h6, h7⟩
+
+theorem firstMissing_mem {num : String → Option R} {k : String} (h : firstMissing num = some k) :
+    k ∈ fieldNames ∧ num k = none := by
+  unfold firstMissing at h
+  refine ⟨List.mem_of_find?_eq_some h, ?_⟩
+  have := List.find?_some h
+  simpa using this
 
 theorem fromYamlDocs_offs_err {ofInt : Int → R} {doc : Yaml R} (rest : List (Yaml R)) {s0 : List Int}
     {e : YamlErr} (hs : signsOf doc = .ok s0) (hk : firstMissing (geoNum ofInt doc) = none)
     (ho : offsOf ofInt doc = .error e) :
     fromYamlDocs ofInt true (doc :: rest) = .error e := by
   rw [fromYamlDocs_signs_ok rest hs]
-  unfold firstMissing fieldNames at hk
-  simp only [List.find?_eq_none, List.mem_cons, List.not_mem_nil, or_false] at hk
-  have g : ∀ k, k ∈ fieldNames → ∃ x, geoNum ofInt doc k = some x := by
-    intro k hkm
-    have := hk k (by simpa [fieldNames] using hkm)
-    cases hx : geoNum ofInt doc k with
-    | none => simp [hx] at this
-    | some x => exact ⟨x, rfl⟩
-  obtain ⟨_, h1⟩ := g "a1" (by simp [fieldNames])
-  obtain ⟨_, h2⟩ := g "a2" (by simp [fieldNames])
-  obtain ⟨_, h3⟩ := g "b" (by simp [fieldNames])
-  obtain ⟨_, h4⟩ := g "c1" (by simp [fieldNames])
-  obtain ⟨_, h5⟩ := g "c2" (by simp [fieldNames])
-  obtain ⟨_, h6⟩ := g "c3" (by simp [fieldNames])
-  obtain ⟨_, h7⟩ := g "c4" (by simp [fieldNames])
+  obtain ⟨_, _, _, _, _, _, _, h1, h2, h3, h4, h5, h6, h7⟩ := fields_of_firstMissing_none hk
   rw [h1, h2, h3, h4, h5, h6, h7, ho]
+
+/-- every clause of the reader at once: what the result is for a loaded, non-empty document list -/
+theorem fromYamlDocs_total (ofInt : Int → R) (doc : Yaml R) (rest : List (Yaml R)) :
+    (∃ v, fromYamlDocs ofInt true (doc :: rest) = .ok v ∧ v.offsets.length = 6 ∧
+        v.signs.length = 6 ∧ -128 ≤ v.dof ∧ v.dof ≤ 127) ∨
+    fromYamlDocs ofInt true (doc :: rest) = .error .parse ∨
+    (∃ k, k ∈ fieldNames ∧ fromYamlDocs ofInt true (doc :: rest) = .error (.missing k)) ∨
+    (∃ n, n ≠ 5 ∧ n ≠ 6 ∧ fromYamlDocs ofInt true (doc :: rest) = .error (.invalidLength n)) := by
+  rcases readSigns_total (doc.get "opw_kinematics_joint_sign_corrections") with
+    ⟨s0, hs, hl⟩ | ⟨n, hs, h5, h6⟩
+  · cases hk : firstMissing (geoNum ofInt doc) with
+    | some k =>
+      right; right; left
+      exact ⟨k, (firstMissing_mem hk).1, fromYamlDocs_missing rest hs hk⟩
+    | none =>
+      rcases readOffsets_total ofInt (doc.get "opw_kinematics_joint_offsets") with
+        ⟨offs, ho, hol⟩ | ho | ⟨n, ho, h5, h6⟩
+      · left
+        obtain ⟨a1, a2, b, c1, c2, c3, c4, h1, h2, h3, h4, h5, h6, h7⟩ :=
+          fields_of_firstMissing_none hk
+        refine ⟨_, fromYamlDocs_ok rest hs h1 h2 h3 h4 h5 h6 h7 ho, hol, ?_,
+          (toI8_range _).1, (toI8_range _).2⟩
+        show (if dofOf doc = 5 then s0.take 5 ++ [0] else s0).length = 6
+        split
+        · simp [hl]
+        · exact hl
+      · right; left; exact fromYamlDocs_offs_err rest hs hk ho
+      · right; right; right; exact ⟨n, h5, h6, fromYamlDocs_offs_err rest hs hk ho⟩
+  · right; right; right; exact ⟨n, h5, h6, fromYamlDocs_signs_err rest hs⟩
+
+/-! ### lookups in the writer's tree -/
+
+theorem tree_geoNum (ofInt : Int → R) (leafLen leafOff : R → Yaml R) (p : Params R) (signs : List Int) :
+    geoNum ofInt (toYamlTree leafLen leafOff p signs) "a1" = (leafLen p.a1).asNumber ofInt ∧
+    geoNum ofInt (toYamlTree leafLen leafOff p signs) "a2" = (leafLen p.a2).asNumber ofInt ∧
+    geoNum ofInt (toYamlTree leafLen leafOff p signs) "b" = (leafLen p.b).asNumber ofInt ∧
+    geoNum ofInt (toYamlTree leafLen leafOff p signs) "c1" = (leafLen p.c1).asNumber ofInt ∧
+    geoNum ofInt (toYamlTree leafLen leafOff p signs) "c2" = (leafLen p.c2).asNumber ofInt ∧
+    geoNum ofInt (toYamlTree leafLen leafOff p signs) "c3" = (leafLen p.c3).asNumber ofInt ∧
+    geoNum ofInt (toYamlTree leafLen leafOff p signs) "c4" = (leafLen p.c4).asNumber ofInt := by
+  simp [geoNum, geoOf, toYamlTree, Yaml.get, Yaml.isStr]
+
+theorem tree_signs (leafLen leafOff : R → Yaml R) (p : Params R) (signs : List Int) :
+    (toYamlTree leafLen leafOff p signs).get "opw_kinematics_joint_sign_corrections"
+      = .arr (signs.map (fun s => .int s)) := by
+  simp [toYamlTree, Yaml.get, Yaml.isStr]
+
+theorem tree_offs (leafLen leafOff : R → Yaml R) (p : Params R) (signs : List Int) :
+    (toYamlTree leafLen leafOff p signs).get "opw_kinematics_joint_offsets"
+      = .arr (p.offsets.toList.map leafOff) := by
+  simp [toYamlTree, Yaml.get, Yaml.isStr]
+
+theorem tree_dof (leafLen leafOff : R → Yaml R) (p : Params R) (signs : List Int) :
+    dofOf (toYamlTree leafLen leafOff p signs) = toI8 p.dof := by
+  simp [dofOf, toYamlTree, Yaml.get, Yaml.isStr, Yaml.asI64]
 
 end Opw.YamlL
